@@ -378,8 +378,10 @@ impl<'a> Serialize<'a> for ClassDef<'a> {
         let mut prev_g = 0;
         let mut prev_class = 0;
 
-        let mut num_glyphs = 0_u16;
-        let mut num_ranges = 1_u16;
+        // Counted in u32: glyph ids and class values are font controlled and may be 0xFFFF,
+        // and there can be up to 65536 glyphs / ranges.
+        let mut num_glyphs = 0_u32;
+        let mut num_ranges = 1_u32;
         for (g, class) in new_gid_classes.iter().filter(|(_, class)| *class != 0) {
             num_glyphs += 1;
             if num_glyphs == 1 {
@@ -391,7 +393,7 @@ impl<'a> Serialize<'a> for ClassDef<'a> {
             }
 
             glyph_max = glyph_max.max(*g);
-            if *g != prev_g + 1 || *class != prev_class + 1 {
+            if Some(*g) != prev_g.checked_add(1) || Some(*class) != prev_class.checked_add(1) {
                 num_ranges += 1;
             }
 
@@ -399,7 +401,7 @@ impl<'a> Serialize<'a> for ClassDef<'a> {
             prev_class = *class;
         }
 
-        if num_glyphs > 0 && (glyph_max - glyph_min + 1) < num_ranges * 3 {
+        if num_glyphs > 0 && ((glyph_max - glyph_min) as u32 + 1) < num_ranges * 3 {
             ClassDefFormat1::serialize(s, new_gid_classes)
         } else {
             ClassDefFormat2::serialize(s, new_gid_classes)
@@ -938,5 +940,22 @@ mod test {
         let subsetted_data = s.copy_bytes();
         let expected_bytes: [u8; 8] = [0x00, 0x01, 0x00, 0x02, 0x00, 0x02, 0x00, 0x04];
         assert_eq!(subsetted_data, expected_bytes);
+    }
+
+    #[test]
+    fn test_serialize_classdef_max_class_and_glyph_values() {
+        // class value 0xFFFF and glyph id 0xFFFF are representable in the font: choosing the
+        // output format must not overflow on them
+        let mut s = Serializer::new(1024);
+        assert_eq!(s.start_serialize(), Ok(()));
+        let ret = ClassDef::serialize(&mut s, &[(1, 0xFFFF), (2, 0xFFFF), (0xFFFF, 1)]);
+        assert!(ret.is_ok());
+        assert!(!s.in_error());
+        s.end_serialize();
+        let expected_bytes: [u8; 16] = [
+            0x00, 0x02, 0x00, 0x02, 0x00, 0x01, 0x00, 0x02, 0xFF, 0xFF, 0xFF, 0xFF, 0xFF, 0xFF, 0x00,
+            0x01,
+        ];
+        assert_eq!(s.copy_bytes(), expected_bytes);
     }
 }
